@@ -286,6 +286,12 @@ pub fn replay(case: &Value) -> Vec<String> {
     for (i, n) in xt.nodes.iter().enumerate() { println!("  #{} {} {}", i, info.language.node_kind_for_id(n.kind_id).unwrap_or("?"), xt.brief(i)); }
     match Query::new(&info.language, src) {
         Err(e) => vec![format!("query rejected: {:?} at {}", e.kind, e.offset)],
-        Ok(q) => { let mut c = QueryCursor::new(); for b in run_matches(&mut c, &q, &tree, &text, &xt) { println!("match: {:?}", b); } vec![] }
+        Ok(q) => {
+            let mut c = QueryCursor::new();
+            for b in run_matches(&mut c, &q, &tree, &text, &xt) { println!("match: {:?}", b); }
+            let env = crate::checks::c11::Env::new(&tree, &text, &xt);
+            for cpt in env.captures(&mut c, &q) { println!("capture: {:?}", cpt); }
+            vec![]
+        }
     }
 }
